@@ -64,14 +64,17 @@ Definition check_feed (sel : N) (w : wcase) (cs : list int * (list (list int) * 
       let effect := bi changed || negb (Uint63.eqb dcalls 0) in
       let cls := w_class w in
       (* classes: 1 genuine complete; 2 strict prefix (cut); 3 tampered ciphertext; 4 hostile bytes;
-                  5 other label; 6 declared size beyond a cap; 7 foreign / removed key *)
+                  5 other label; 6 declared size beyond a cap; 7 foreign / removed key; 8 reply undeliverable;
+                  9 sent in clear to a node that authenticates;
+                  10 the peer stalls with the connection held open ([closed] = the handler gave up by TCPTimeout) *)
       if want 13 && bi pan then mkV 302 0
       else if want 13 && negb (bi closed) then mkV 304 0
       else if want 9 && N.eqb cls 2 && effect then mkV 300 0
       else if want 12 && N.eqb cls 1 && negb (bi effok) then mkV 301 0
       else if want 16 && N.eqb cls 1 && negb (bi effok) && negb (match plabel (w_r w) with [] => true | _ => false end) then mkV 308 0
       else if want 9 && N.eqb cls 8 && effect then mkV 300 0
-      else if want 14 && (N.eqb cls 3 || N.eqb cls 7) && effect then mkV 306 0
+      else if want 14 && (N.eqb cls 3 || N.eqb cls 7 || N.eqb cls 9) && effect then mkV 306 0
+      else if want 9 && (N.eqb cls 3 || N.eqb cls 7 || N.eqb cls 9) && effect then mkV 315 0
       else if want 16 && N.eqb cls 5 && (effect || bi wrote) then mkV 307 0
       else if want 9 && N.eqb cls 5 && effect then mkV 314 0
       else if want 13 && N.eqb cls 6 && (effect || (65536 <? ni consumed)) then mkV 305 0
@@ -102,11 +105,45 @@ Definition check_join (sel : N) (cs : list int * (list (list int) * list (list i
   | _, _ => mkV 1 0
   end.
 
+(* ---- kind 14: a periodic (non-join) push/pull between two real nodes.  cfg: [14; incompatible];
+        obs: [[ok; initiator_changed; host_changed; initiator_delegate_calls; host_delegate_calls; initiator_lists_host_side; host_lists_initiator_side]] ---- *)
+Definition check_exchange (sel : N) (cs : list int * (list (list int) * list (list int))) : verdict :=
+  match fst cs, snd (snd cs) with
+  | _ :: inc :: _, [[ok; ic; hc; idc; hdc; il; hl]] =>
+      if negb (N.eqb sel 0 || N.eqb sel 9) then vok
+      else if bi inc && (bi ic || bi hc || negb (Uint63.eqb idc 0) || negb (Uint63.eqb hdc 0)) then mkV 316 0
+      else if negb (bi inc) && bi ok && negb (bi il && bi hl) then mkV 317 0
+      else if negb (bi inc) && negb (bi ok) then mkV 64 0
+      else vok
+  | _, _ => mkV 1 0
+  end.
+
+(* ---- kind 15: AddLabelHeaderToStream + payload written in fragments, then RemoveLabelHeaderFromStream and the
+        rest read with buffers of every size.  ops: the fragments; obs: [[error]; label returned; bytes read] ---- *)
+Definition check_labelstream (sel : N) (cs : list int * (list (list int) * list (list int))) : verdict :=
+  match snd (snd cs) with
+  | [[e]; lab; got] =>
+      let frags := map bytes_of (fst (snd cs)) in
+      let want16 := N.eqb sel 0 || N.eqb sel 16 in
+      match remove_label_stream frags with
+      | Ok (l, pc) =>
+          if bi e then mkV 65 0
+          (* what came back, with its header put in front again, is the stream that was sent *)
+          else if want16 && negb (beq (label_header (bytes_of lab) ++ bytes_of got) (concat frags)) then mkV 309 0
+          else if beq l (bytes_of lab) && beq (drain pc) (bytes_of got) then vok else mkV 65 0
+      | Err _ => if bi e then vok else mkV 65 0
+      | Panic => mkV 65 0
+      end
+  | _ => mkV 1 0
+  end.
+
 Definition check_any (sel : N) (cs : list int * (list (list int) * list (list int))) : verdict :=
   match fst cs with
   | kind :: _ =>
       if Uint63.eqb kind 10 then check_vp sel cs
       else if Uint63.eqb kind 13 then check_join sel cs
+      else if Uint63.eqb kind 14 then check_exchange sel cs
+      else if Uint63.eqb kind 15 then check_labelstream sel cs
       else match dec_cfg (fst cs) with
            | Some w => if Uint63.eqb kind 11 then check_frame sel w cs else check_feed sel w cs
            | None => mkV 1 0
